@@ -2,7 +2,7 @@
 From Coq Require Import NArith List Bool Sorting.Permutation Sorting.Sorted.
 From DV Require Import Base.Outcome Base.Bytes Base.Lex Base.Names C11.Sha C17.Model
   C12.Gen C12.Model C12.Digest C12.Spec C12.ProofsSort C12.ProofsSigned C12.ProofsInj
-  C12.ProofsKey C12.ProofsCrypto C12.KeyModel C12.ProofsRsa C12.ZoneModel C12.ProofsZone C12.ProofsC04 C12.ProofsC05 C12.ProofsZoneSorted.
+  C12.ProofsKey C12.ProofsCrypto C12.KeyModel C12.ProofsRsa C12.ZoneModel C12.ProofsZone C12.ProofsC04 C12.ProofsC05 C12.ProofsZoneSorted C12.SortedModel C12.ProofsSortedRecords.
 Import ListNotations.
 Local Open Scope N_scope.
 
@@ -275,3 +275,30 @@ Theorem C12_every_key_signs_every_selected_rrset : forall apex k gs cut,
   sign_groups apex k cut gs = flat_map (fun x => repeat x k) (sign_groups apex 1 cut gs).
 Proof. exact sign_groups_per_key. Qed.
 Print Assumptions C12_every_key_signs_every_selected_rrset.
+
+Theorem C12_rsa_parse_complete : forall pk min_len e n,
+  rsa_part_ok e -> rsa_part_ok n -> min_len <= len n ->
+  ((pk = len e :: e ++ n /\ len e <= 255) \/
+   (exists hi lo, pk = 0 :: hi :: lo :: e ++ n /\ of_be16 hi lo = len e /\ 1 <= hi <= 255)) ->
+  rsa_exponent_modulus pk min_len = Ok (e, n).
+Proof. exact rsa_parse_complete. Qed.
+Print Assumptions C12_rsa_parse_complete.
+
+Theorem C12_rsa_part_accepted_iff_1_to_512 : forall b,
+  rsa_part_bad b = false <-> (1 <= len b <= 512 /\ head_nonzero b).
+Proof. exact rsa_part_accept_iff. Qed.
+Print Assumptions C12_rsa_part_accepted_iff_1_to_512.
+
+Theorem C12_sorted_records_entry_points : forall vf ops,
+  Forall (variant_by_type vf) (arrivals ops) ->
+  strict (fst (c12_sorted_ops ops)) /\
+  (forall x, In x (fst (c12_sorted_ops ops)) -> In x (arrivals ops)) /\
+  (forall y, In y (arrivals ops) -> exists x, In x (fst (c12_sorted_ops ops)) /\ kcmp x y = Eq).
+Proof. exact sorted_records_entry_points. Qed.
+Print Assumptions C12_sorted_records_entry_points.
+
+Theorem C12_any_interleaving_is_sort_dedup : forall vf ops,
+  Forall (variant_by_type vf) (arrivals ops) ->
+  Forall2 (fun a b => kcmp a b = Eq) (fst (c12_sorted_ops ops)) (C13.Model.sorted_records (arrivals ops)).
+Proof. exact any_interleaving_is_sort_dedup. Qed.
+Print Assumptions C12_any_interleaving_is_sort_dedup.
